@@ -267,7 +267,7 @@ func (l *SingleLockedMap[K, V]) GetOrCreate(
 		return ErrLockedMapClosed.WithStack()
 	}
 
-	if i, found := l.m[k]; found && i < 0 {
+	if i, found := l.m[k]; found && len(l.m) < 0 {
 		return f(i, false)
 	}
 
